@@ -9,7 +9,12 @@
 (* "h" a byte of the REMOTE|host|...| header of non-plain mode.                                *)
 EXTENDS Integers, Sequences, FiniteSets, TLC
 CONSTANTS MaxLen, Ms, Ps,
-          KF_FrameLongerThanBuffer   \* named deviation: Read() copies min(len(frame), len(p)) bytes and discards the rest
+          KF_FrameLongerThanBuffer,  \* named deviation: Read() copies min(len(frame), len(p)) bytes and discards the rest
+          KF_LeadingDotPlain         \* named deviation (repaired): the client takes every message beginning with '.' for a hidden control
+                                     \* message and drops it - in plain mode that is every line of the file beginning with a dot.  The
+                                     \* repaired client hides only what it knows as a control message (".syn close connection"); a line
+                                     \* of a file that begins with exactly that text still ends the session (open finding
+                                     \* KF_SynTextInContent, outside this byte-class model, pinned by a test of its own)
 
 Sigma == {"x", "y", "n", "d", "p"}
 Files == UNION {[1..k -> Sigma] : k \in 0..MaxLen}
@@ -44,8 +49,8 @@ Stream(ls, plain, P) == IF ls = <<>> THEN <<>> ELSE Cut(Frame(Head(ls), plain), 
 RECURSIVE Client(_, _)
 Client(st, buf) == IF st = <<>> THEN <<>>
                    ELSE LET b == Head(st) IN
-                        IF b = "n" THEN (IF buf # <<>> /\ Head(buf) = "p" THEN <<>> ELSE Append(buf, "n")) \o Client(Tail(st), <<>>)
-                        ELSE IF b = "d" THEN (IF buf # <<>> /\ Head(buf) = "p" THEN <<>> ELSE buf) \o Client(Tail(st), <<>>)
+                        IF b = "n" THEN (IF KF_LeadingDotPlain /\ buf # <<>> /\ Head(buf) = "p" THEN <<>> ELSE Append(buf, "n")) \o Client(Tail(st), <<>>)
+                        ELSE IF b = "d" THEN (IF KF_LeadingDotPlain /\ buf # <<>> /\ Head(buf) = "p" THEN <<>> ELSE buf) \o Client(Tail(st), <<>>)
                         ELSE Client(Tail(st), Append(buf, b))
 Strip(s) == SelectSeq(s, LAMBDA b : b # "h")   \* the comparison ignores the header bytes of non-plain mode
 Out(f, M, P, plain) == Strip(Client(Stream(Lines(f, <<>>, M), plain, P), <<>>))
@@ -61,5 +66,5 @@ Init == f \in Files /\ M \in Ms /\ P \in Ps /\ plain \in BOOLEAN
 Next == UNCHANGED vars
 Spec == Init /\ [][Next]_vars
 \* Impl = Ref outside the named deviations; the deviation list is complete for the explored scope
-Faithful == (~HasD(f) /\ ~(plain /\ LeadingDot(f, M)) /\ ~(KF_FrameLongerThanBuffer /\ TooLong(f, M, P, plain))) => Out(f, M, P, plain) = ExpMode(f, M, plain)
+Faithful == (~HasD(f) /\ ~(KF_LeadingDotPlain /\ plain /\ LeadingDot(f, M)) /\ ~(KF_FrameLongerThanBuffer /\ TooLong(f, M, P, plain))) => Out(f, M, P, plain) = ExpMode(f, M, plain)
 =============================================================================
